@@ -503,6 +503,58 @@ impl<'b, A: Adapter> Sess<'b, A> {
     }
 }
 
+impl<'b, A: Adapter> Sess<'b, A> {
+    /// The independent reference relation on a statement (single: one group; batch: AND over the
+    /// groups in point-label order on one sponge).  "" when the scheme / statement has no reference.
+    pub fn reference(&self, st: &Stmt<A>, sp: &mut LogSponge<A::F>) -> String {
+        let enc = |o: Option<bool>| match o {
+            Some(true) => "accept".to_string(),
+            Some(false) => "reject".to_string(),
+            None => String::new(),
+        };
+        match st {
+            Stmt::Open { comms, point, values, proof, .. } => {
+                let cs: Vec<&LabeledCommitment<Comm<A>>> = comms.iter().collect();
+                match guarded_plain(|| A::reference_check(&self.vk, &cs, point, values, proof, sp)) {
+                    Out::Ok(o) => enc(o),
+                    _ => "reject".into(),
+                }
+            }
+            Stmt::Batch { comms, qs, evals, proof } => {
+                let cmap: BTreeMap<&String, &LabeledCommitment<Comm<A>>> = comms.iter().map(|c| (c.label(), c)).collect();
+                let mut groups: BTreeMap<&String, (&A::Pt, BTreeSet<&String>)> = BTreeMap::new();
+                for (l, (pl, pt)) in qs.iter() {
+                    groups.entry(pl).or_insert((pt, BTreeSet::new())).1.insert(l);
+                }
+                if groups.len() != proof.len() {
+                    return "reject".into();
+                }
+                let mut all = true;
+                for ((_pl, (pt, labels)), pr) in groups.into_iter().zip(proof.iter()) {
+                    let mut cs = vec![];
+                    let mut vs = vec![];
+                    for l in labels {
+                        match (cmap.get(l), evals.get(&(l.clone(), pt.clone()))) {
+                            (Some(c), Some(v)) => {
+                                cs.push(*c);
+                                vs.push(*v);
+                            }
+                            _ => return "reject".into(),
+                        }
+                    }
+                    match guarded_plain(|| A::reference_check(&self.vk, &cs, pt, &vs, pr, sp)) {
+                        Out::Ok(Some(b)) => all &= b,
+                        Out::Ok(None) => return String::new(),
+                        _ => return "reject".into(),
+                    }
+                }
+                enc(Some(all))
+            }
+            _ => String::new(),
+        }
+    }
+}
+
 pub enum ProofObj<A: Adapter> {
     Single(Proof<A>),
     Batch(Vec<Proof<A>>, Option<Vec<A::F>>),
@@ -1301,6 +1353,13 @@ pub fn run_beh<A: Adapter>(beh: &Beh) -> Obs {
             obs.skipped_adv.push("swap_ops".into());
         }
     }
+    for adv in beh.adv.iter().filter(|a| a.kind == "vk_mut") {
+        let mut r = rng_for("vkmut", hash_str(&beh.id));
+        match A::vk_variant(&adv.comp, &sess.vk, &mut r) {
+            Some(v) => sess.vk = v,
+            None => obs.skipped_adv.push(format!("vk_mut:{}", adv.comp)),
+        }
+    }
     for (i, op) in beh.ops.iter().enumerate() {
         let st = stmts[i].take();
         let mut st = match st {
@@ -1311,7 +1370,7 @@ pub fn run_beh<A: Adapter>(beh: &Beh) -> Obs {
             }
         };
         let mut sp_v = sess.sp_v.clone();
-        for adv in beh.adv.iter().filter(|a| a.op as usize == i + 1 && a.kind != "swap_ops") {
+        for adv in beh.adv.iter().filter(|a| a.op as usize == i + 1 && a.kind != "swap_ops" && a.kind != "vk_mut") {
             let ok = apply_adv::<A>(&sess, op, i, &mut st, &sp_befores[i], &mut sp_v, adv);
             if !ok {
                 obs.skipped_adv.push(adv.kind.clone());
@@ -1322,6 +1381,16 @@ pub fn run_beh<A: Adapter>(beh: &Beh) -> Obs {
             Stmt::Open { .. } => 1,
             Stmt::Batch { proof, .. } | Stmt::Lc { proof, .. } => proof.len(),
         };
+        if beh.prop == "C10" {
+            let mut spr = sp_v.fork_log();
+            obs.ops[i].reference = sess.reference(&st, &mut spr);
+            if std::env::var("PCV_DEBUG").is_ok() {
+                eprintln!("reference log: {:?}", spr.take_log().iter().map(|e| format!("{}:{}:{}", e.k, e.n, e.d)).collect::<Vec<_>>());
+                let mut spl = sp_v.fork_log();
+                let _ = sess.verify(&st, &mut spl, 11);
+                eprintln!("library   log: {:?}", spl.take_log().iter().map(|e| format!("{}:{}:{}", e.k, e.n, e.d)).collect::<Vec<_>>());
+            }
+        }
         let mut sp1 = sp_v.clone();
         let r1 = sess.verify(&st, &mut sp1, 11);
         obs.ops[i].check = decision(&r1).into();
